@@ -1,3 +1,822 @@
 package rules
 
-func checkLoops(c *Ctx) {}
+import (
+	"fmt"
+	"go/ast"
+	"go/token"
+	"go/types"
+	"sort"
+	"strings"
+
+	"golang.org/x/tools/go/packages"
+
+	"verif/tools/internal/core"
+)
+
+// C16.d — every hand-written loop exits at end of input and makes progress.
+//
+// For a for-statement the rule looks for a *cursor*: a local integer variable
+// that every cycle increments (by a positive constant, never assigning it
+// otherwise) and that every cycle compares — in the loop condition or in the
+// body — against an invariant bound in a way that leaves the loop when the
+// bound is reached: `E < bound` / `E >= bound` tests, end-of-input-false
+// helpers (isCharAt, isStringAt), an index access buf[E] (out of range is a
+// recoverable panic), or `E == bound` tests provided the cursor moves by unit
+// steps between tests.  A cursor state machine (BELOW < bound, ATMOST <= bound,
+// OVER) is run over every cycle path; an `==` test evaluated in state OVER can
+// be jumped over and is a violation, as is a cycle without any test.
+
+type evKind int
+
+const (
+	evInc evKind = iota
+	evSet
+	evGuardRobust // E<bound false / E>=bound true exits; index access; EOF-false helper
+	evGuardEq     // E == bound exits
+	evIncStar     // inner loop that may advance the variable
+)
+
+type loopEv struct {
+	k   evKind
+	v   *types.Var
+	n   int64
+	pos token.Pos
+}
+
+type lterm int
+
+const (
+	tFall lterm = iota
+	tBack
+	tExit
+)
+
+type lpath struct {
+	evs  []loopEv
+	term lterm
+}
+
+type loopAn struct {
+	c      *Ctx
+	pkg    *packages.Package
+	fset   *token.FileSet
+	fn     *ast.FuncDecl
+	eofFalse map[string]bool // helper functions verified end-of-input-false
+	over   bool              // path explosion
+}
+
+// manual table: loops whose progress is semantic.  Keyed function#ordinal.
+var manualLoops = map[string]string{
+	"fc.ParseList#1":      "callback loop: the step function consumes a token or panics (not decidable here: nullable analysis through higher-order parameters)",
+	"fc.ParseList2#1":     "callback loop: next/one consume a token or panic (same assumption)",
+	"fc.scanSpaceToken#1": "outer loop: each true disjunct of its guard is consumed by the corresponding inner step (blanks, tabs, block comment, line comment); its end-of-input exit is checked mechanically",
+	"fc.nextToken#1":      "SPACE-skipping loop: a SPACE token has positive length (previous entry), so tk.end() strictly increases; scanTokenAt returns EOF at the end",
+}
+
+func (a *loopAn) obj(id *ast.Ident) *types.Var {
+	if v, ok := a.pkg.TypesInfo.Uses[id].(*types.Var); ok {
+		return v
+	}
+	if v, ok := a.pkg.TypesInfo.Defs[id].(*types.Var); ok {
+		return v
+	}
+	return nil
+}
+
+// vars mentioned additively in e (x, x+e, e+x, parenthesised); nil if e is not such an expression.
+func (a *loopAn) additiveVars(e ast.Expr) []*types.Var {
+	switch x := ast.Unparen(e).(type) {
+	case *ast.Ident:
+		if v := a.obj(x); v != nil {
+			return []*types.Var{v}
+		}
+		return nil
+	case *ast.BasicLit:
+		return []*types.Var{}
+	case *ast.BinaryExpr:
+		if x.Op == token.ADD {
+			l, r := a.additiveVars(x.X), a.additiveVars(x.Y)
+			if l == nil || r == nil {
+				return nil
+			}
+			return append(l, r...)
+		}
+		if x.Op == token.SUB {
+			l := a.additiveVars(x.X)
+			if _, ok := ast.Unparen(x.Y).(*ast.BasicLit); ok && l != nil {
+				return l
+			}
+		}
+	case *ast.CallExpr:
+		// len(x) is a non-negative invariant term
+		if id, ok := x.Fun.(*ast.Ident); ok && id.Name == "len" {
+			return []*types.Var{}
+		}
+	}
+	return nil
+}
+
+func (a *loopAn) isBound(e ast.Expr) bool {
+	switch x := ast.Unparen(e).(type) {
+	case *ast.Ident:
+		return a.obj(x) != nil
+	case *ast.CallExpr:
+		if id, ok := x.Fun.(*ast.Ident); ok && id.Name == "len" && len(x.Args) == 1 {
+			return true
+		}
+	case *ast.BinaryExpr:
+		return a.isBound(x.X) && a.isBound(x.Y)
+	case *ast.BasicLit:
+		return true
+	}
+	return false
+}
+
+func guardsFor(vars []*types.Var, k evKind, pos token.Pos) []loopEv {
+	var evs []loopEv
+	for _, v := range vars {
+		evs = append(evs, loopEv{k: k, v: v, pos: pos})
+	}
+	return evs
+}
+
+// indexGuards: buf[E] accesses inside e (evaluation of e panics when E is out of range).
+func (a *loopAn) indexGuards(e ast.Node) []loopEv {
+	var evs []loopEv
+	if e == nil {
+		return nil
+	}
+	ast.Inspect(e, func(n ast.Node) bool {
+		switch x := n.(type) {
+		case *ast.FuncLit:
+			return false
+		case *ast.IndexExpr:
+			if tv, ok := a.pkg.TypesInfo.Types[x.X]; ok {
+				switch tv.Type.Underlying().(type) {
+				case *types.Basic, *types.Slice, *types.Array:
+					if vs := a.additiveVars(x.Index); vs != nil {
+						evs = append(evs, guardsFor(vs, evGuardRobust, x.Pos())...)
+					}
+				}
+			}
+		}
+		return true
+	})
+	return evs
+}
+
+type tri int
+
+const (
+	triF tri = iota
+	triT
+	triU
+)
+
+// evalEOF evaluates a condition under the assumption "every additive expression over v has reached the bound".
+func (a *loopAn) evalEOF(e ast.Expr, v *types.Var) tri {
+	mentions := func(x ast.Expr) bool {
+		for _, w := range a.additiveVars(x) {
+			if w == v {
+				return true
+			}
+		}
+		return false
+	}
+	switch x := ast.Unparen(e).(type) {
+	case *ast.BinaryExpr:
+		switch x.Op {
+		case token.LAND:
+			l, r := a.evalEOF(x.X, v), a.evalEOF(x.Y, v)
+			if l == triF || r == triF {
+				return triF
+			}
+			if l == triT && r == triT {
+				return triT
+			}
+			return triU
+		case token.LOR:
+			l, r := a.evalEOF(x.X, v), a.evalEOF(x.Y, v)
+			if l == triT || r == triT {
+				return triT
+			}
+			if l == triF && r == triF {
+				return triF
+			}
+			return triU
+		case token.LSS:
+			if mentions(x.X) && a.isBound(x.Y) {
+				return triF
+			}
+		case token.GTR:
+			if mentions(x.Y) && a.isBound(x.X) {
+				return triF
+			}
+		case token.GEQ:
+			if mentions(x.X) && a.isBound(x.Y) {
+				return triT
+			}
+		case token.LEQ:
+			if mentions(x.Y) && a.isBound(x.X) {
+				return triT
+			}
+		}
+	case *ast.UnaryExpr:
+		if x.Op == token.NOT {
+			switch a.evalEOF(x.X, v) {
+			case triF:
+				return triT
+			case triT:
+				return triF
+			}
+		}
+	case *ast.CallExpr:
+		if id, ok := x.Fun.(*ast.Ident); ok && a.eofFalse[id.Name] && len(x.Args) >= 2 && mentions(x.Args[1]) {
+			if id.Name == "isStringAt" {
+				// end-of-input-false only for a non-empty constant pattern
+				tv := a.pkg.TypesInfo.Types[x.Args[2]]
+				if tv.Value == nil || tv.Value.ExactString() == `""` {
+					return triU
+				}
+			}
+			return triF
+		}
+	}
+	return triU
+}
+
+// condGuards: guard events established when cond evaluates to `outcome` and the other outcome leaves the loop.
+// For a loop condition the loop continues on true; for `if C { exit }` the path continues on false.
+func (a *loopAn) condGuards(cond ast.Expr, continueOn bool, cands []*types.Var) []loopEv {
+	var evs []loopEv
+	if cond == nil {
+		return nil
+	}
+	for _, v := range cands {
+		r := a.evalEOF(cond, v)
+		if (continueOn && r == triF) || (!continueOn && r == triT) {
+			evs = append(evs, loopEv{k: evGuardRobust, v: v, pos: cond.Pos()})
+		}
+	}
+	// E == bound (continue on false) / E != bound (continue on true)
+	if be, ok := ast.Unparen(cond).(*ast.BinaryExpr); ok {
+		if (be.Op == token.EQL && !continueOn) || (be.Op == token.NEQ && continueOn) {
+			for _, side := range [][2]ast.Expr{{be.X, be.Y}, {be.Y, be.X}} {
+				if vs := a.additiveVars(side[0]); len(vs) > 0 && a.isBound(side[1]) {
+					for _, v := range vs {
+						for _, cnd := range cands {
+							if cnd == v {
+								evs = append(evs, loopEv{k: evGuardEq, v: v, pos: cond.Pos()})
+							}
+						}
+					}
+					break
+				}
+			}
+		}
+	}
+	return evs
+}
+
+func isPanicStmt(s ast.Stmt) bool {
+	es, ok := s.(*ast.ExprStmt)
+	if !ok {
+		return false
+	}
+	call, ok := es.X.(*ast.CallExpr)
+	if !ok {
+		return false
+	}
+	id, ok := call.Fun.(*ast.Ident)
+	return ok && id.Name == "panic"
+}
+
+// assigned variables of a subtree (for inner loops)
+func (a *loopAn) modified(n ast.Node) (incs, sets map[*types.Var]bool) {
+	incs, sets = map[*types.Var]bool{}, map[*types.Var]bool{}
+	ast.Inspect(n, func(x ast.Node) bool {
+		switch y := x.(type) {
+		case *ast.FuncLit:
+			return false
+		case *ast.IncDecStmt:
+			if id, ok := y.X.(*ast.Ident); ok {
+				if v := a.obj(id); v != nil {
+					if y.Tok == token.INC {
+						incs[v] = true
+					} else {
+						sets[v] = true
+					}
+				}
+			}
+		case *ast.AssignStmt:
+			for _, lh := range y.Lhs {
+				if id, ok := lh.(*ast.Ident); ok {
+					if v := a.obj(id); v != nil {
+						if y.Tok == token.ADD_ASSIGN {
+							incs[v] = true
+						} else {
+							sets[v] = true
+						}
+					}
+				}
+			}
+		}
+		return true
+	})
+	return
+}
+
+func (a *loopAn) stmtPaths(stmts []ast.Stmt, cands []*types.Var) []lpath {
+	cur := []lpath{{}}
+	for _, s := range stmts {
+		var next []lpath
+		sp := a.onePaths(s, cands)
+		for _, p := range cur {
+			if p.term != tFall {
+				next = append(next, p)
+				continue
+			}
+			for _, q := range sp {
+				np := lpath{evs: append(append([]loopEv{}, p.evs...), q.evs...), term: q.term}
+				next = append(next, np)
+			}
+		}
+		if len(next) > 4000 {
+			a.over = true
+			next = next[:4000]
+		}
+		cur = next
+	}
+	return cur
+}
+
+func (a *loopAn) onePaths(s ast.Stmt, cands []*types.Var) []lpath {
+	isCand := func(v *types.Var) bool {
+		for _, c := range cands {
+			if c == v {
+				return true
+			}
+		}
+		return false
+	}
+	switch x := s.(type) {
+	case *ast.ExprStmt:
+		if isPanicStmt(x) {
+			return []lpath{{evs: a.indexGuards(x), term: tExit}}
+		}
+		return []lpath{{evs: a.indexGuards(x)}}
+	case *ast.IncDecStmt:
+		evs := a.indexGuards(x.X)
+		if id, ok := x.X.(*ast.Ident); ok {
+			if v := a.obj(id); v != nil && isCand(v) {
+				if x.Tok == token.INC {
+					evs = append(evs, loopEv{k: evInc, v: v, n: 1, pos: x.Pos()})
+				} else {
+					evs = append(evs, loopEv{k: evSet, v: v, pos: x.Pos()})
+				}
+			}
+		}
+		return []lpath{{evs: evs}}
+	case *ast.AssignStmt:
+		var evs []loopEv
+		for _, rh := range x.Rhs {
+			evs = append(evs, a.indexGuards(rh)...)
+		}
+		for i, lh := range x.Lhs {
+			id, ok := lh.(*ast.Ident)
+			if !ok {
+				evs = append(evs, a.indexGuards(lh)...)
+				continue
+			}
+			v := a.obj(id)
+			if v == nil || !isCand(v) {
+				continue
+			}
+			switch {
+			case x.Tok == token.ADD_ASSIGN && len(x.Rhs) == 1:
+				tv := a.pkg.TypesInfo.Types[x.Rhs[0]]
+				if tv.Value != nil {
+					var n int64
+					fmt.Sscan(tv.Value.ExactString(), &n)
+					if n >= 1 {
+						evs = append(evs, loopEv{k: evInc, v: v, n: n, pos: x.Pos()})
+						continue
+					}
+				}
+				evs = append(evs, loopEv{k: evSet, v: v, pos: x.Pos()})
+			case x.Tok == token.ASSIGN && i < len(x.Rhs):
+				// x = x + c
+				if be, ok := ast.Unparen(x.Rhs[i]).(*ast.BinaryExpr); ok && be.Op == token.ADD {
+					if l, ok := ast.Unparen(be.X).(*ast.Ident); ok && a.obj(l) == v {
+						if tv := a.pkg.TypesInfo.Types[be.Y]; tv.Value != nil {
+							var n int64
+							fmt.Sscan(tv.Value.ExactString(), &n)
+							if n >= 1 {
+								evs = append(evs, loopEv{k: evInc, v: v, n: n, pos: x.Pos()})
+								continue
+							}
+						}
+					}
+				}
+				evs = append(evs, loopEv{k: evSet, v: v, pos: x.Pos()})
+			default:
+				evs = append(evs, loopEv{k: evSet, v: v, pos: x.Pos()})
+			}
+		}
+		return []lpath{{evs: evs}}
+	case *ast.DeclStmt:
+		return []lpath{{evs: a.indexGuards(x)}}
+	case *ast.ReturnStmt:
+		return []lpath{{evs: a.indexGuards(x), term: tExit}}
+	case *ast.BranchStmt:
+		switch x.Tok {
+		case token.BREAK:
+			if x.Label == nil {
+				return []lpath{{term: tExit}}
+			}
+		case token.CONTINUE:
+			if x.Label == nil {
+				return []lpath{{term: tBack}}
+			}
+		}
+		a.over = true
+		return []lpath{{term: tExit}}
+	case *ast.BlockStmt:
+		return a.stmtPaths(x.List, cands)
+	case *ast.IfStmt:
+		var pre []loopEv
+		if x.Init != nil {
+			for _, p := range a.onePaths(x.Init, cands) {
+				pre = append(pre, p.evs...)
+			}
+		}
+		pre = append(pre, a.indexGuards(x.Cond)...)
+		thenP := a.stmtPaths(x.Body.List, cands)
+		var elseP []lpath
+		switch e := x.Else.(type) {
+		case nil:
+			elseP = []lpath{{}}
+		case *ast.BlockStmt:
+			elseP = a.stmtPaths(e.List, cands)
+		default:
+			elseP = a.onePaths(e, cands)
+		}
+		allExit := func(ps []lpath) bool {
+			for _, p := range ps {
+				if p.term != tExit {
+					return false
+				}
+			}
+			return len(ps) > 0
+		}
+		var res []lpath
+		// guards: the condition leaves the loop on one side
+		var gThen, gElse []loopEv
+		if allExit(thenP) {
+			gElse = a.condGuards(x.Cond, false, cands)
+		}
+		if allExit(elseP) {
+			gThen = a.condGuards(x.Cond, true, cands)
+		}
+		for _, p := range thenP {
+			res = append(res, lpath{evs: append(append(append([]loopEv{}, pre...), gThen...), p.evs...), term: p.term})
+		}
+		for _, p := range elseP {
+			res = append(res, lpath{evs: append(append(append([]loopEv{}, pre...), gElse...), p.evs...), term: p.term})
+		}
+		return res
+	case *ast.ForStmt, *ast.RangeStmt:
+		// inner loop: zero or more internally checked steps
+		incs, sets := a.modified(x)
+		var evs []loopEv
+		if fs, ok := x.(*ast.ForStmt); ok && fs.Cond != nil {
+			evs = append(evs, a.indexGuards(fs.Cond)...)
+		}
+		for _, v := range cands {
+			if sets[v] {
+				evs = append(evs, loopEv{k: evSet, v: v, pos: x.Pos()})
+			} else if incs[v] {
+				evs = append(evs, loopEv{k: evIncStar, v: v, pos: x.Pos()})
+			}
+		}
+		return []lpath{{evs: evs}}
+	case *ast.SwitchStmt:
+		var pre []loopEv
+		if x.Tag != nil {
+			pre = a.indexGuards(x.Tag)
+		}
+		var res []lpath
+		hasDefault := false
+		for _, cl := range x.Body.List {
+			cc := cl.(*ast.CaseClause)
+			if cc.List == nil {
+				hasDefault = true
+			}
+			for _, p := range a.stmtPaths(cc.Body, cands) {
+				t := p.term
+				res = append(res, lpath{evs: append(append([]loopEv{}, pre...), p.evs...), term: t})
+			}
+		}
+		if !hasDefault {
+			res = append(res, lpath{evs: pre})
+		}
+		return res
+	case *ast.EmptyStmt:
+		return []lpath{{}}
+	}
+	a.over = true
+	return []lpath{{}}
+}
+
+type curState int
+
+const (
+	stBelow curState = iota
+	stAtMost
+	stOver
+)
+
+// verifyCursor checks one candidate cursor over all cycle paths.  Returns "" if verified.
+func verifyCursor(v *types.Var, condEvs []loopEv, paths []lpath) string {
+	filter := func(evs []loopEv) []loopEv {
+		var r []loopEv
+		for _, e := range evs {
+			if e.v == v {
+				r = append(r, e)
+			}
+		}
+		return r
+	}
+	var cycles [][]loopEv
+	for _, p := range paths {
+		if p.term == tExit {
+			continue
+		}
+		cycles = append(cycles, append(filter(condEvs), filter(p.evs)...))
+	}
+	if len(cycles) == 0 {
+		return "" // the body always leaves the loop
+	}
+	for _, cyc := range cycles {
+		inc, guard := false, false
+		for _, e := range cyc {
+			switch e.k {
+			case evInc:
+				inc = true
+			case evSet:
+				return "the variable is assigned (not only incremented) on a cycle"
+			case evGuardEq, evGuardRobust:
+				guard = true
+			}
+		}
+		if !inc {
+			return "a cycle does not increment it (no progress)"
+		}
+		if !guard {
+			return "a cycle never compares it with the end of input"
+		}
+	}
+	// state machine to a fixpoint over entry states
+	reach := map[curState]bool{stAtMost: true}
+	for changed := true; changed; {
+		changed = false
+		for st := range reach {
+			for _, cyc := range cycles {
+				s := st
+				for _, e := range cyc {
+					switch e.k {
+					case evInc:
+						if s == stBelow && e.n == 1 {
+							s = stAtMost
+						} else {
+							s = stOver
+						}
+					case evIncStar:
+						if s == stBelow {
+							s = stAtMost // the inner loop stops at the bound at the latest (checked on its own)
+						} else {
+							s = stOver
+						}
+					case evGuardRobust:
+						s = stBelow
+					case evGuardEq:
+						if s == stOver {
+							return "an `== end` test is evaluated after the cursor may have moved more than one step past the previous test: the end of input can be jumped over"
+						}
+						s = stBelow
+					}
+				}
+				if !reach[s] {
+					reach[s] = true
+					changed = true
+				}
+			}
+		}
+	}
+	return ""
+}
+
+func (a *loopAn) checkFor(fs *ast.ForStmt, key string, pos string) {
+	r := a.c.R
+	// candidates: variables incremented in the loop
+	incs, _ := a.modified(fs)
+	var cands []*types.Var
+	for v := range incs {
+		cands = append(cands, v)
+	}
+	sort.Slice(cands, func(i, j int) bool { return cands[i].Pos() < cands[j].Pos() })
+	a.over = false
+	body := append([]ast.Stmt{}, fs.Body.List...)
+	paths := a.stmtPaths(body, cands)
+	// post statement runs on every back edge
+	var postEvs []loopEv
+	if fs.Post != nil {
+		for _, p := range a.onePaths(fs.Post, cands) {
+			postEvs = append(postEvs, p.evs...)
+		}
+	}
+	for i := range paths {
+		if paths[i].term != tExit {
+			paths[i].evs = append(paths[i].evs, postEvs...)
+		}
+	}
+	condEvs := append(a.indexGuards(fs.Cond), a.condGuards(fs.Cond, true, cands)...)
+	if reason, manual := manualLoops[key]; manual {
+		// progress is semantic; the end-of-input exit of the condition is still checked where a cursor exists
+		if len(cands) > 0 && fs.Cond != nil {
+			okExit := false
+			for _, e := range condEvs {
+				if e.k == evGuardRobust {
+					okExit = true
+				}
+			}
+			if strings.HasSuffix(key, "scanSpaceToken#1") {
+				r.Check(okExit, "C16.d", key, "eof-exit", pos, "manual-table loop: its condition is false at end of input (checked); progress: "+reason,
+					"the loop condition is not false at end of input")
+				return
+			}
+		}
+		r.OK("C16.d", key, "manual", pos, "manual table: "+reason)
+		return
+	}
+	if a.over {
+		r.Undecided("C16.d", key, "shape", pos, "loop body uses a construct the path enumeration has no transfer function for (label, goto, select, >4000 paths)")
+		return
+	}
+	// linked-structure walk: for x.F != nil { …; x = x.F }
+	if why := a.linkedWalk(fs); why != "" {
+		r.OK("C16.d", key, "linked-walk", pos, why)
+		return
+	}
+	if len(cands) == 0 {
+		r.Bad("C16.d", key, "progress", pos, "no variable is incremented in this loop and it is not in the manual table: termination cannot be argued")
+		return
+	}
+	var reasons []string
+	for _, v := range cands {
+		why := verifyCursor(v, condEvs, paths)
+		if why == "" {
+			r.OK("C16.d", key, "cursor "+v.Name(), pos, "every cycle increments "+v.Name()+" and tests it against the end of input (condition false at end of input, idx==len/idx>=len exit, or index access) with unit steps between == tests")
+			return
+		}
+		reasons = append(reasons, v.Name()+": "+why)
+	}
+	r.Bad("C16.d", key, "eof-exit/progress", pos, "no cursor variable satisfies the exit-at-end-of-input and progress obligations ("+strings.Join(reasons, "; ")+"): on some input the loop does not terminate")
+}
+
+// linkedWalk recognises `for x.F != nil { … x = x.F … }` over a write-once pointer field.
+func (a *loopAn) linkedWalk(fs *ast.ForStmt) string {
+	be, ok := ast.Unparen(fs.Cond).(*ast.BinaryExpr)
+	if !ok || be.Op != token.NEQ {
+		return ""
+	}
+	sel, ok := ast.Unparen(be.X).(*ast.SelectorExpr)
+	if !ok {
+		return ""
+	}
+	if id, ok := ast.Unparen(be.Y).(*ast.Ident); !ok || id.Name != "nil" {
+		return ""
+	}
+	xid, ok := sel.X.(*ast.Ident)
+	if !ok {
+		return ""
+	}
+	xv := a.obj(xid)
+	// every path through the body assigns x = x.F exactly
+	okAssign := false
+	for _, s := range fs.Body.List {
+		if as, ok := s.(*ast.AssignStmt); ok && as.Tok == token.ASSIGN && len(as.Lhs) == 1 && len(as.Rhs) == 1 {
+			if l, ok := as.Lhs[0].(*ast.Ident); ok && a.obj(l) == xv {
+				if rs, ok := as.Rhs[0].(*ast.SelectorExpr); ok && rs.Sel.Name == sel.Sel.Name {
+					if ri, ok := rs.X.(*ast.Ident); ok && a.obj(ri) == xv {
+						okAssign = true
+					}
+				}
+			}
+		}
+	}
+	if !okAssign {
+		return ""
+	}
+	// the field is never assigned outside composite literals in this package
+	fieldObj := a.pkg.TypesInfo.Selections[sel]
+	if fieldObj == nil {
+		return ""
+	}
+	written := false
+	for _, f := range a.pkg.Syntax {
+		ast.Inspect(f, func(n ast.Node) bool {
+			if as, ok := n.(*ast.AssignStmt); ok {
+				for _, lh := range as.Lhs {
+					if s2, ok := lh.(*ast.SelectorExpr); ok {
+						if so := a.pkg.TypesInfo.Selections[s2]; so != nil && so.Obj() == fieldObj.Obj() {
+							written = true
+						}
+					}
+				}
+			}
+			return true
+		})
+	}
+	if written {
+		return ""
+	}
+	return "linked-structure walk over field " + sel.Sel.Name + ", which is only ever set in the constructor literal (write-once ⇒ the chain is acyclic and finite)"
+}
+
+// verifyEOFHelpers checks isCharAt/isStringAt return false past the end of the buffer (closed forms).
+func verifyEOFHelpers(c *Ctx, m *core.Module) map[string]bool {
+	res := map[string]bool{}
+	f := c.LoadFC("fc")
+	if f == nil {
+		return res
+	}
+	if nf, fn := f.NF("isCharAt"); fn != nil {
+		ok := nf == "if((p1 >= len(p0)), false, (p0[p1] == p2))"
+		c.R.Check(ok, "C16.d", "fc.isCharAt", "eof-false", c.Pos(f.M.Fset, fn.Decl.Pos()), "isCharAt returns false when the index is at or past the end", "isCharAt is not end-of-input-false: "+nf)
+		res["isCharAt"] = ok
+	}
+	if nf, fn := f.NF("isStringAt"); fn != nil {
+		ok := strings.HasPrefix(nf, "if(((p1 + len(p2)) > len(p0)), false, ")
+		c.R.Check(ok, "C16.d", "fc.isStringAt", "eof-false", c.Pos(f.M.Fset, fn.Decl.Pos()), "isStringAt returns false when the (non-empty) pattern does not fit before the end", "isStringAt is not end-of-input-false: "+short(nf, 120))
+		res["isStringAt"] = ok
+	}
+	return res
+}
+
+func checkLoops(c *Ctx) {
+	r := c.R
+	type unit struct {
+		dir, label string
+	}
+	units := []unit{{"fc", "fc"}, {"pkg/slice", "slice"}, {"pkg/dict", "dict"}, {"pkg/strings", "strings"}, {"pkg/frt", "frt"}, {"pkg/buf", "buf"}, {"pkg/sys", "sys"}}
+	total := 0
+	for _, u := range units {
+		m := c.Load(u.dir, false)
+		if m == nil {
+			continue
+		}
+		pkg := m.Main()
+		var helpers map[string]bool
+		if u.dir == "fc" {
+			helpers = verifyEOFHelpers(c, m)
+		}
+		for _, file := range pkg.Syntax {
+			fname := m.Fset.Position(file.Pos()).Filename
+			if core.IsGenerated(fname) || strings.HasSuffix(fname, "_test.go") {
+				continue
+			}
+			for _, d := range file.Decls {
+				fd, ok := d.(*ast.FuncDecl)
+				if !ok || fd.Body == nil {
+					continue
+				}
+				ord := 0
+				a := &loopAn{c: c, pkg: pkg, fset: m.Fset, fn: fd, eofFalse: helpers}
+				ast.Inspect(fd.Body, func(n ast.Node) bool {
+					switch x := n.(type) {
+					case *ast.RangeStmt:
+						ord++
+						total++
+						key := fmt.Sprintf("%s.%s#%d", u.label, fd.Name.Name, ord)
+						pos := c.Pos(m.Fset, x.Pos())
+						tv := pkg.TypesInfo.Types[x.X]
+						switch tv.Type.Underlying().(type) {
+						case *types.Slice, *types.Array, *types.Map, *types.Basic, *types.Pointer:
+							r.OK("C16.d", key, "range", pos, "range over a finite collection (length fixed at loop entry)")
+						default:
+							r.Undecided("C16.d", key, "range", pos, "range over "+tv.Type.String()+": no termination argument")
+						}
+					case *ast.ForStmt:
+						ord++
+						total++
+						key := fmt.Sprintf("%s.%s#%d", u.label, fd.Name.Name, ord)
+						a.checkFor(x, key, c.Pos(m.Fset, x.Pos()))
+					}
+					return true
+				})
+			}
+		}
+	}
+	r.Unit("hand_written_loops", total)
+}
